@@ -215,12 +215,19 @@ Arguments op_slurp {I SRC}.
 Inductive source :=
 | SrcStdin                  (* Source::Stdin: FdReader2 on descriptor 0 *)
 | SrcOwn (d : dev)          (* Source::File: FdReader2 on a descriptor of its own *)
-| SrcMem (ls : list line).  (* Source::String: Memory (split_inclusive '\n') *)
+| SrcMem (ls : list line)   (* Source::String: Memory (split_inclusive '\n') *)
+| SrcInput (ps : dev).      (* any other Input: next_line returns the pieces [ps] in turn, which
+                               need not end at a newline, then "" for the end of input.  The
+                               lexer's line buffer (LexerCore::peek_char) appends every piece and
+                               asks again as long as the parser needs a character, so what the
+                               parser sees is the concatenation: the pieces are assembled into
+                               lines exactly like the chunks of a descriptor. *)
 
 Definition byte_pull (s : source) (i : dev) : line * source * dev * N :=
   match s with
   | SrcStdin => let (l, i') := next_line i in (l, SrcStdin, i', nlen l)
   | SrcOwn d => let (l, d') := next_line d in (l, SrcOwn d', i, 0%N)
+  | SrcInput d => let (l, d') := next_line d in (l, SrcInput d', i, 0%N)
   | SrcMem [] => ([], SrcMem [], i, 0%N)
   | SrcMem (l :: ls) => (l, SrcMem ls, i, 0%N)
   end.
